@@ -7,6 +7,7 @@ import (
 	"math/rand"
 	"runtime"
 	"sort"
+	"strings"
 	"sync"
 
 	"go.dedis.ch/kyber/v4"
@@ -146,6 +147,16 @@ func PointPool(g *groups.Info, seed int64, per int) (*Pool, error) {
 		for _, b := range f.Candidates(rng, per) {
 			push(b, "refmodel-candidate")
 		}
+		// other serialisation formats / lenient readings at other lengths (uncompressed x||y of members, of
+		// on-curve points outside the subgroup, of off-curve pairs; concatenations; zero padding); and the
+		// same one byte shorter and longer
+		for _, b := range f.Alternates(rng, per/2+1) {
+			push(b, "refmodel-alternate-format")
+			if len(b) > 1 && rng.Intn(3) == 0 {
+				push(b[:len(b)-1], "refmodel-alternate-format-1")
+				push(append(append([]byte{}, b...), byte(rng.Intn(256))), "refmodel-alternate-format+1")
+			}
+		}
 	}
 	// strings of the encoding size with no structure
 	for i := 0; i < per; i++ {
@@ -156,7 +167,7 @@ func PointPool(g *groups.Info, seed int64, per int) (*Pool, error) {
 	push(make([]byte, size), "all-00")
 	push(bytes.Repeat([]byte{0xff}, size), "all-ff")
 	// length variants: truncations / extensions of valid encodings and of arbitrary candidates, random, 00, ff
-	lens := []int{0, 1, size - 1, size + 1, 2*size + 40, size / 2, size + 7, 2 * size}
+	lens := []int{0, 1, size - 1, size + 1, 2*size + 40, size / 2, size + 7, 2*size - 1, 2 * size, 2*size + 1, 3 * size}
 	for _, n := range lens {
 		for i := 0; i < per; i++ {
 			var b []byte
@@ -198,6 +209,9 @@ func PointPool(g *groups.Info, seed int64, per int) (*Pool, error) {
 	capFor := func(c Class) int {
 		if tinyGroup(g) && c.Len == "size" {
 			return 1 << 20 // tiny group: every string of the encoding size is a witness
+		}
+		if strings.HasPrefix(c.Len, "2size") && c.Len != "2size+40" {
+			return 12 * per // these length classes hold the other-format encodings of every membership kind
 		}
 		return per
 	}
